@@ -50,11 +50,29 @@ func (t *ackTap) onWrite(e *connEnd, b []byte) {
 		if op == nil {
 			return // stream message after go-live
 		}
+		path := t.inst.srv.opts.AppendFileName
+		if len(op.Cmd.Inner) > 0 {
+			// a script whose writes are known: when its (non-error) reply leaves, every one of
+			// them is in the file
+			if v.isErr() {
+				continue
+			}
+			*t.checked++
+			fb, _ := os.ReadFile(path)
+			for _, in := range op.Cmd.Inner {
+				if !bytes.Contains(fb, encodeCmd(in)) {
+					w.violate(t.class+"/ack-before-file",
+						"reply %s to the script [%s] is being written to connection %s while its write [%s] is not in appendonly.aof (file has %d bytes; still in the in-memory buffer: %v; dirty flag: %v)",
+						v.String(), clipStr(op.Cmd.String(), 100), e.c.name, clipStr(strings.Join(in, " "), 100), len(fb), bytes.Contains(t.inst.srv.aofbuf, encodeCmd(in)), t.inst.srv.aofdirty.Load())
+					break
+				}
+			}
+			continue
+		}
 		if !ackIsDurableWrite(op, v) {
 			continue
 		}
 		*t.checked++
-		path := t.inst.srv.opts.AppendFileName
 		fb, _ := os.ReadFile(path)
 		if !bytes.Contains(fb, encodeCmd(op.Cmd.Args)) {
 			inbuf := bytes.Contains(t.inst.srv.aofbuf, encodeCmd(op.Cmd.Args))
@@ -131,6 +149,17 @@ func runC08(w *World) {
 					c = Cmd{Args: []string{"DEL", "k1", pick(r, g.freeIDs)}}
 				case 4, 5:
 					c = Cmd{Args: []string{"GET", "k1", pick(r, g.freeIDs)}}
+				case 7:
+					// a script that writes (plain or by hash): its reply acknowledges its writes
+					p = appendScript(p, r, scriptCmd(r, g))
+					if style == 1 || style == 4 || (style == 2 && r.Intn(2) == 0) {
+						for k := len(p) - 1; k >= 0 && k >= len(p)-2; k-- {
+							if strings.HasPrefix(p[k].Args[0], "EVAL") || p[k].Args[0] == "SCRIPT" {
+								p[k].Pipe = true
+							}
+						}
+					}
+					continue
 				case 6:
 					// values of several sizes around the buffer sizes a write path may care about
 					sz := []int{3000, 9000, 11000, 20000, 70000}[r.Intn(5)]
